@@ -59,12 +59,45 @@ def layout_options(ctx, world, modes=("vjp", "jvp")):
                 for t in walk(c.leaf):
                     if t.op == "call" and (any(_is_opt(x, pname, ppos) for x in t.args) or any(_is_opt(x, pname, ppos) for x in t.kw.values())):
                         bad = bad or (v, t)
+        # NumPy's own meaning of 'A': Fortran index order exactly when the array is F-contiguous AND NOT C-contiguous
+        # (1-D arrays and shapes such as (1, n) are both): a path that answers "F" for order='A' must have excluded
+        # C-contiguity (flags.c_contiguous false, or np.isfortran true)
+        if not bad and "A" in rel:
+            def decideA(a):
+                if a.op == "cmp" and a.opname in ("Eq", "Is") and ((_is_opt(a.l, pname, ppos) and a.r.op == "const") or (_is_opt(a.r, pname, ppos) and a.l.op == "const")):
+                    c = a.r if a.r.op == "const" else a.l
+                    return c.value == "A"
+                if a.op == "cmp" and a.opname == "In" and _is_opt(a.l, pname, ppos) and a.r.op in ("tuple", "list", "set") and all(x.op == "const" for x in a.r.elts):
+                    return "A" in [x.value for x in a.r.elts]
+                return None
+
+            spec_ = specialise(res, decideA)
+            for t in walk(spec_):
+                if t.op != "call":
+                    continue
+                ops_ = [x for x in list(t.kw.items()) if x[0] == pname]
+                for _k, o_ in ops_:
+                    for c in cases(o_):
+                        if c.leaf.op == "const" and c.leaf.value == "F":
+                            excl = False
+                            for a, pol in c.facts:
+                                if a.op == "attr" and a.name == "c_contiguous" and pol is False:
+                                    excl = True
+                                if a.op == "call" and a.fn.op in ("ref", "attr") and (getattr(a.fn, "name", "") == "isfortran" or (a.fn.op == "ref" and a.fn.ref.qual.endswith(".isfortran"))) and pol is True:
+                                    excl = True
+                            if not excl:
+                                bad = ("A", t)
+                                note_ = "answers 'F' for an array that may also be C-contiguous (1-D, (1, n), (n, 1)): NumPy reads those in C order"
         if bad:
             v, t = bad
             from ..model import norm_text
 
             txt = norm_text(t.node)[:70] if t.node is not None else str(t)[:70]
-            ctx.fail("A7.order", inst, f"{e.mode}:{e.prim_id}|{pname}", e.loc, f"with {pname}='{v}' the rule forwards the layout-relative value unchanged to `{txt}`, which applies it to the layout of the (co)tangent instead of the argument's", W)
+            if "note_" in dir():
+                ctx.fail("A7.order", inst, f"{e.mode}:{e.prim_id}|{pname}-A-resolution", e.loc, f"with {pname}='A' the value handed to `{txt}` {note_}", "reshape(arange(6.), (2, 3), order='A'): the argument is both C- and F-contiguous")
+                del note_
+            else:
+                ctx.fail("A7.order", inst, f"{e.mode}:{e.prim_id}|{pname}", e.loc, f"with {pname}='{v}' the rule forwards the layout-relative value unchanged to `{txt}`, which applies it to the layout of the (co)tangent instead of the argument's", W)
         else:
             ctx.ob("A7.order", inst, True, e.loc)
     ctx.floor("A7.order rules of ravel / reshape", n, 2 if len(modes) == 1 else 4)
